@@ -69,6 +69,9 @@ class Scen(CompScenario):
             if used and rng.random() < pf:
                 stim[f"free{i}.en"] = 1
                 stim[f"free{i}.i.ident"] = used.pop()
+                if i and stim.get(f"free{i - 1}.en") and rng.random() < 0.1:
+                    # two ways releasing the same allocated identifier in one cycle (it is allocated: within the premise)
+                    stim[f"free{i}.i.ident"] = stim[f"free{i - 1}.i.ident"]
         stim["peek.en"] = int(rng.random() < pp)
         stim["replace.en"] = int(rng.random() < pr)
         r = rng.random()
@@ -96,13 +99,14 @@ class Scen(CompScenario):
         free_ids = bits(F, n)
         nfree = len(free_ids)
 
-        # premise: frees name identifiers allocated in earlier cycles, none twice in a cycle
+        # premise: frees name identifiers allocated in earlier cycles (two ways may name the same one)
         freeing = []
         for i in range(self.fw):
             if stim.get(f"free{i}.en", 0):
                 ident = stim.get(f"free{i}.i.ident", 0)
                 self.premise(ident < n and not (F >> ident) & 1, f"free of identifier {ident} which is not allocated")
-                self.premise(ident not in freeing, f"identifier {ident} freed twice in one cycle")
+                if ident in freeing:
+                    self.hit("same_identifier_freed_on_two_ways")
                 freeing.append(ident)
 
         # alloc ways
@@ -246,7 +250,7 @@ class Prop(PropBase):
     expected_cov = ["alloc_refused_none_free", "alloc_some_ways_refused", "alloc_all_ways_ran", "alloc_took_last_free",
                     "alloc_high_way_only", "alloc_and_free_same_cycle", "free_several_same_cycle", "ident_reused_after_free",
                     "alloc_after_replace", "alloc_from_partial_init", "replace_with_alloc", "replace_with_free",
-                    "clear_with_alloc", "clear_with_free", "peek_with_update", "twin_caller_served", "two_callers_contend_for_one_way"]
+                    "clear_with_alloc", "clear_with_free", "peek_with_update", "same_identifier_freed_on_two_ways", "twin_caller_served", "two_callers_contend_for_one_way"]
     real = ["transactron.lib.allocators.PriorityEncoderAllocator",
             "transactron.utils.amaranth_ext.elaboratables.MultiPriorityEncoder", "transactron.lib.adapters.AdapterTrans",
             "TransactionManager + scheduler", "amaranth pysim"]
@@ -274,6 +278,8 @@ class Prop(PropBase):
             init = (1 << n) - 1
         else:
             init = rng.getrandbits(n)
+        if rng.random() < 0.15:
+            init = ~(~init & ((1 << n) - 1))  # the same mask written as a negative number (like the default -1)
         cycles = rng.randint(80, 400 if big else 240)
         kinds = ["random", "random", "fill", "drain", "pingpong", "gap", "replace", "flush", "contend", "idle"]
         return {"entries": n, "alloc_ways": aw, "free_ways": fw, "init": init, "cycles": cycles, "twin": int(rng.random() < 0.3),
